@@ -1580,6 +1580,11 @@ func (t *Topic) thisUserSub(sess *Session, pkt *ClientComMessage, asUid types.Ui
 			if modeWant == types.ModeUnset {
 				// User wants default access mode.
 				userData.modeWant = t.accessFor(asLvl)
+			} else if modeWant.IsOwner() {
+				// Ownership cannot be requested with a new subscription: it can only be accepted
+				// by an existing subscriber after the owner has granted it.
+				sess.queueOut(ErrPermissionDeniedReply(pkt, now))
+				return nil, errors.New("new subscriber cannot request ownership")
 			} else {
 				userData.modeWant = modeWant
 			}
@@ -1707,6 +1712,10 @@ func (t *Topic) thisUserSub(sess *Session, pkt *ClientComMessage, asUid types.Ui
 			if !oldWant.IsJoiner() {
 				// Set permissions NO WORSE than default, but possibly better (admin or owner banned himself).
 				userData.modeWant = userData.modeGiven | t.accessFor(asLvl)
+				if t.owner != asUid {
+					// Ownership must be accepted explicitly (see ownerChange above), not by un-banning oneself.
+					userData.modeWant &^= types.ModeOwner
+				}
 			}
 		} else if userData.modeWant != modeWant {
 			// The user has provided a new modeWant and it' different from the one before
